@@ -6,7 +6,7 @@ from vlib import *
 
 PKG = "nativeconverter/estargz/externaltoc/verif_convert_test.go"
 OVERLAY = {PKG: PKG}
-MODES = ("esgz", "zstd", "ext", "extll")
+ALLMODES = ("esgz", "zstd", "ext", "extll")
 INTERNAL = ("TypeOK", "RefExclusive")
 # Catalogue of Convert.tla (index = source id)
 CATALOGUE = {
@@ -109,21 +109,28 @@ def check(run):
         "`opts = append(opts, x)` is modelled as one atomic step; byte sizes and digests are abstract ids in the design model, real ones in the traces",
         "RFC-validity of the compressed members is delegated to compress/gzip and klauspost zstd accepting the whole stream",
         "free-running traces are decided by the monitor only; the lossless writer deviating from its source (MayDeviate) exists only in the design model",
-        "source layers: two small tars (dirs, regular files up to 42 KB, symlink, empty file) as plain/gzip/zstd/eStargz, OCI and Docker media types",
+        "source layers: two small tars (dirs, regular files up to 11 KB, several chunks with the 4 KiB chunk option, symlink, empty file) as plain/gzip/zstd/eStargz, OCI and Docker media types",
     ]
+    # development knobs (not used by ./check as registered): VERIF_C19_ONLY=ext,zstd restricts the modes, VERIF_C19_SKIPMC=1 skips M
+    only = [m for m in os.environ.get("VERIF_C19_ONLY", "").split(",") if m]
+    MODES = tuple(m for m in ALLMODES if not only or m in only)
+    skipmc = os.environ.get("VERIF_C19_SKIPMC") == "1"
     # ---------------------------------------------------------------- M: design, exhaustive
-    for mode in MODES:
+    for mode in (() if skipmc else MODES):
         run.tlc_mc("Convert", "Convert_mc.cfg", {"Mode": q(mode)}, workers=4, timeout=1500, name="Convert_mc.cfg %s N=2 4 sources" % mode)
     if thorough:
         for mode in MODES:
             run.tlc_mc("Convert", "Convert_mc.cfg", {"Mode": q(mode), "NConv": "3", "SrcIds": "{2, 4, 6}" if mode != "extll" else "{2, 4, 5}", "MaxIntr": "2"},
                        workers=4, timeout=3000, name="Convert_mc.cfg %s N=3" % mode)
-    run.tlc_negctl("Convert", "Convert_mc.cfg", {"MapLock": "FALSE"}, ["MapWritesMutuallyExclusive"], drop=INTERNAL)
-    run.tlc_negctl("Convert", "Convert_mc.cfg", {"CopyOpts": "FALSE"}, ["NoConversionPanics", "TocImageMapsEveryLayer", "DescDescribesBlob"], drop=INTERNAL)
-    run.tlc_negctl("Convert", "Convert_mc.cfg", {"CopyOpts": "FALSE", "Mode": q("zstd")}, ["DescDescribesBlob"], drop=INTERNAL)
-    run.tlc_negctl("Convert", "Convert_mc.cfg", {"DiffIDCheck": "FALSE", "Mode": q("extll")}, ["LosslessKeepsDiffID"], drop=INTERNAL)
-    run.tlc_negctl("Convert", "Convert_mc.cfg", {"UpdateLabel": "FALSE", "Mode": q("esgz")}, ["DescDescribesBlob"], drop=INTERNAL)
-    run.tlc_negctl("Convert", "Convert_mc.cfg", {"MediaTypeFollowsBlob": "FALSE", "Mode": q("esgz")}, ["DescDescribesBlob"], drop=INTERNAL)
+    if only or skipmc:
+        run.inconclusive.append("development knobs VERIF_C19_ONLY/VERIF_C19_SKIPMC are set: partial run")
+    if not skipmc:
+      run.tlc_negctl("Convert", "Convert_mc.cfg", {"MapLock": "FALSE"}, ["MapWritesMutuallyExclusive"], drop=INTERNAL)
+      run.tlc_negctl("Convert", "Convert_mc.cfg", {"CopyOpts": "FALSE"}, ["NoConversionPanics", "TocImageMapsEveryLayer", "DescDescribesBlob"], drop=INTERNAL)
+      run.tlc_negctl("Convert", "Convert_mc.cfg", {"CopyOpts": "FALSE", "Mode": q("zstd")}, ["DescDescribesBlob"], drop=INTERNAL)
+      run.tlc_negctl("Convert", "Convert_mc.cfg", {"DiffIDCheck": "FALSE", "Mode": q("extll")}, ["LosslessKeepsDiffID"], drop=INTERNAL)
+      run.tlc_negctl("Convert", "Convert_mc.cfg", {"UpdateLabel": "FALSE", "Mode": q("esgz")}, ["DescDescribesBlob"], drop=INTERNAL)
+      run.tlc_negctl("Convert", "Convert_mc.cfg", {"MediaTypeFollowsBlob": "FALSE", "Mode": q("esgz")}, ["DescDescribesBlob"], drop=INTERNAL)
 
     # ---------------------------------------------------------------- R/G: schedules from the graph
     gen_srcs = {"esgz": [1, 4], "zstd": [2, 3], "ext": [2, 5], "extll": [3, 4]}
@@ -174,21 +181,29 @@ def check(run):
         out = os.path.join(run.scratch, "free_%s.ndjson" % mode)
         free[mode] = out
         jobs.append({"out": out, "scenarios": scs})
-    inp = os.path.join(run.scratch, "scenarios.json")
-    write_json(inp, jobs)
-    rc, out = run.go_test("", "./nativeconverter/estargz/externaltoc/", OVERLAY, "^TestVerifConvert$",
-                          env={"VERIF_IN": inp, "VERIF_PAR": "12"}, timeout=2400)
-    if rc != 0:
-        if "WARNING: DATA RACE" in out:
-            # the race detector reported a race between parallel conversions of one converter instance: the shared state the
-            # property quantifies over ("also when layers are converted concurrently")
-            sig, block = race_signature(out)
-            run.violation(sig, "data race between layer conversions run in parallel by one converter instance", {"log": block[:6000]})
-        elif "concurrent map writes" in out or "concurrent map read and map write" in out:
-            run.violation("fatal:concurrent-map-writes:externaltoc.layerConvert", "the Go runtime aborted: concurrent map writes on esgzDigest2TOC",
-                          {"log": out[-4000:]})
-        else:
-            raise Inconclusive("driver failed (rc=%d):\n%s" % (rc, "\n".join(out.splitlines()[-60:])))
+    stages = [x for x in os.environ.get("VERIF_C19_STAGES", "gated,free").split(",") if x]
+    if stages != ["gated", "free"]:
+        run.inconclusive.append("development knob VERIF_C19_STAGES is set: partial run")
+    # gated walks execute one segment at a time (nothing runs concurrently, the race detector has nothing to see): plain build;
+    # free-running parallel conversions: -race
+    for stage, race in (("gated", False), ("free", True)):
+        if stage not in stages:
+            continue
+        inp = os.path.join(run.scratch, "scenarios_%s.json" % stage)
+        write_json(inp, [j for j in jobs if os.path.basename(j["out"]).startswith(stage)])
+        rc, out = run.go_test("", "./nativeconverter/estargz/externaltoc/", OVERLAY, "^TestVerifConvert$",
+                              env={"VERIF_IN": inp, "VERIF_PAR": "12"}, timeout=2400, race=race)
+        if rc != 0:
+            if "WARNING: DATA RACE" in out:
+                # the race detector reported a race between parallel conversions of one converter instance: the shared state the
+                # property quantifies over ("also when layers are converted concurrently")
+                sig, block = race_signature(out)
+                run.violation(sig, "data race between layer conversions run in parallel by one converter instance", {"log": block[:6000]})
+            elif "concurrent map writes" in out or "concurrent map read and map write" in out:
+                run.violation("fatal:concurrent-map-writes:externaltoc.layerConvert", "the Go runtime aborted: concurrent map writes on esgzDigest2TOC",
+                              {"log": out[-4000:]})
+            else:
+                raise Inconclusive("driver failed (rc=%d):\n%s" % (rc, "\n".join(out.splitlines()[-60:])))
     for mode in MODES:
         if os.path.exists(gated[mode]):
             validate(run, mode, gated[mode], "gated", 2, True)
